@@ -147,14 +147,14 @@ def run(ctx: Ctx) -> int:
 		if a not in annos:
 			annos.append(a)
 	jobs = []
-	lib = 'class K:\n\tn: int\n\tdef __init__(self, n: int) -> None:\n\t\tself.n = n\n\nclass Q(K):\n\tm: str\n\tdef __init__(self, n: int) -> None:\n\t\tsuper().__init__(n)\n\t\tself.m = \'\'\n\ndef mk(n: int) -> K:\n\treturn K(n)\n'
+	lib = 'class K:\n\tn: int\n\tdef __init__(self, n: int) -> None:\n\t\tself.n = n\n\nclass Q(K):\n\tm: str\n\tdef __init__(self, n: int) -> None:\n\t\tsuper().__init__(n)\n\t\tself.m = \'\'\n\ndef mk(n: int) -> K:\n\treturn K(n)\n\ntable: dict[str, list[K]] = {}\nnames = [\'a\', \'b\']\nopt: str | None = None\npair: tuple[int, str] = (1, \'a\')\nnested: list[dict[str, tuple[int, K]]] = []\n'
 	step = 12
 	for i in range(0, len(annos), step):
 		chunk = annos[i:i + step]
 		params = ', '.join(f'p{j}: {a}' for j, a in enumerate(chunk))
 		body = ''.join(f'\tv{j} = p{j}\n' for j in range(len(chunk)))
 		fields = ''.join(f'\tf{j}: {a}\n' for j, a in enumerate(chunk[:4]))
-		user = f'from vm_lib import K, Q, mk\n\nclass Holder:\n{fields}\tk: K\n\tdef __init__(self, k: K) -> None:\n\t\tself.k = k\n\n\tdef get(self) -> list[K]:\n\t\treturn [self.k, mk(1)]\n\ndef f({params}) -> dict[str, list[K]]:\n{body}\th = Holder(Q(1))\n\tks = h.get()\n\treturn {{\'a\': ks}}\n\ng = mk(2)\n'
+		user = f'from vm_lib import K, Q, mk, table, names, opt, pair, nested\n\nt2 = table\nn2 = names\n\nclass Holder:\n{fields}\tk: K\n\tdef __init__(self, k: K) -> None:\n\t\tself.k = k\n\n\tdef get(self) -> list[K]:\n\t\treturn [self.k, mk(1)]\n\ndef f({params}) -> dict[str, list[K]]:\n{body}\th = Holder(Q(1))\n\tks = h.get()\n\treturn {{\'a\': ks}}\n\ng = mk(2)\n'
 		jobs.append((f'shapes:{i}', {'vm_lib': lib, 'vm_user': user}, 'vm_user'))
 	jobs.append(('lib', {'vm_lib': lib}, 'vm_lib'))
 	tables = [json.loads(line) for line in res.lines('TABLE ')]
